@@ -214,7 +214,7 @@ CHECKS.update({
             "machine-checked proof (Coq 8.16) on a hand-written model + differential correspondence check on real threads (observed lock order replayed in the model)",
             "DESIGN.md 8.C12"),
     "C17": ("proof",
-            "Coq theorems (Props/C17.v, 12) about Model/Macro.v - the expansion of _generate_impl! as an instruction list run by an "
+            "Coq theorems (Props/C17.v, 13) about Model/Macro.v - the expansion of _generate_impl! as an instruction list run by an "
             "interpreter over the client model of C01/C03 - for every macro, argument, number of tag pairs, client configuration "
             "and sink script: with a global client set the macro hands the sink exactly the strings, the handler exactly the "
             "errors and consumes exactly the sink answers of <kind>_with_tags + with_tag per pair in written order + quiet send "
